@@ -16,7 +16,6 @@ import os
 for _v in ("OMP_NUM_THREADS", "OPENBLAS_NUM_THREADS", "MKL_NUM_THREADS", "NUMBA_NUM_THREADS"):
     os.environ.setdefault(_v, "1")
 
-import itertools
 import json
 import math
 from fractions import Fraction
@@ -50,12 +49,13 @@ THEOREMS = [
     "PorepyVerif.C18.rt0_exact_segment",
     "PorepyVerif.C18.rt0_exact_triangle",
     "PorepyVerif.C18.rt0_exact_tetrahedron",
-    "PorepyVerif.C18.mvem_exact_simplex",
+    "PorepyVerif.C18.mvem_exact_triangle",
+    "PorepyVerif.C18.mvem_exact_tetrahedron",
 ]
 LEAN_MODULES = ["PorepyVerif.C18.Props"]
 AUDIT = "PorepyVerif/C18/Audit.lean"
 DRIVER = "PorepyVerif/C18/Driver.lean"
-N = {"quick": 36, "thorough": 900}
+N = {"quick": 80, "thorough": 2500}
 DISABLED = True
 RULE = ("60% 'grid' cases: simplex grid of dim 1/2/3 (TensorGrid, StructuredTriangleGrid, StructuredTetrahedralGrid; 1-12 cells quick), "
         "nodes perturbed by dyadic offsets and sheared by a dyadic unimodular-ish map, dim<3 grids embedded in 3-D by a rational (quaternion) "
@@ -66,7 +66,7 @@ TRUSTED = [
     "modelled, not verified: numpy kron/reshape/dot glue inside RT0.massHdiv, np.linalg.solve / norm in MVEM.massHdiv, the construction of HB by shifted "
     "diagonals, cell_face_to_opposite_node bookkeeping, map_grid rotation and SecondOrderTensor.rotate (all covered by the correspondence of the assembled "
     "global mass matrices and by the oracle, not by proof)",
-    "the driver tabulates intermediate matrices (tab A = A extensionally) before composing the model functions",
+    "the driver tabulates intermediate matrices (fromTab (tabulate A) = A extensionally) before composing the model functions",
     "global exactness = local exactness (proved) + unique solvability of the saddle-point system (hypothesis, observed: the sparse solve succeeds and "
     "reproduces the exact solution); floating-point rounding of the real code (tolerance 1e-8 in the oracle, 1e-10 relative in the correspondence)",
     "the divergence theorem on each cell (hypothesis DivThm of the exactness theorems) is proved for explicit simplices in dimension 1, 2, 3 and is checked "
@@ -266,6 +266,18 @@ def _key(case):
     return json.dumps(case, sort_keys=True)
 
 
+def local_data(case):
+    """float inputs of the static helpers for a 'local' case (computed without the code under test)"""
+    d = case["d"]
+    x, V, cen, fc, n_out = local_geometry(case)
+    diam = float_diam(x)
+    return {"K": mat_f(case["K"]), "s": np.array(case["sign"], dtype=float),
+            "coord": np.array([[fl(v) for v in p] for p in x]).T,  # d x (d+1)
+            "normals": np.array([[fl(s_j * v) for v in n] for s_j, n in zip(case["sign"], n_out)]).T,  # global orientation
+            "fcs": np.array([[fl(v) for v in p] for p in fc]).T, "c": np.array([fl(v) for v in cen]), "V": fl(V),
+            "diam": diam, "weight": diam ** (2 - d), "pt": np.array([fl(v) for v in case["pt"]])}
+
+
 def local_real(case):
     k = _key(case)
     if k in _cache:
@@ -273,24 +285,17 @@ def local_real(case):
     from porepy.numerics.fem.rt0 import RT0
     from porepy.numerics.vem.mvem import MVEM
     d = case["d"]
-    x, V, cen, fc, n_out = local_geometry(case)
-    K = mat_f(case["K"])
-    s = np.array(case["sign"], dtype=float)
+    out = local_data(case)
     inv_fun = {1: RT0._inv_matrix_1d, 2: RT0._inv_matrix_2d, 3: RT0._inv_matrix_3d}[d]
-    Kinv = inv_fun(K)
-    coord = np.array([[fl(v) for v in p] for p in x]).T  # d x (d+1)
-    M = RT0.massHdiv(Kinv, fl(V), coord, s, d, hb_matrix(d))
-    normals = np.array([[fl(s_j * v) for v in n] for s_j, n in zip(case["sign"], n_out)]).T  # global orientation
-    fcs = np.array([[fl(v) for v in p] for p in fc]).T
-    c = np.array([fl(v) for v in cen])
-    diam = float_diam(x)
-    weight = diam ** (2 - d)
-    A, Pi = MVEM.massHdiv(K, Kinv, c, fl(V), fcs, normals, s, diam, weight)
-    pt = np.array([fl(v) for v in case["pt"]])
     dimmask = np.array([i < d for i in range(3)])
-    P = RT0.faces_to_cell(pt, coord, fcs, normals, dimmask, np.eye(3))
-    out = {"K": K, "Kinv": Kinv, "M": M, "A": A, "Pi": Pi, "P": P, "normals": normals, "fcs": fcs, "c": c, "V": fl(V), "diam": diam,
-           "weight": weight, "coord": coord, "s": s}
+    try:
+        Kinv = inv_fun(out["K"])
+        M = RT0.massHdiv(Kinv, out["V"], out["coord"], out["s"], d, hb_matrix(d))
+        A, Pi = MVEM.massHdiv(out["K"], Kinv, out["c"], out["V"], out["fcs"], out["normals"], out["s"], out["diam"], out["weight"])
+        P = RT0.faces_to_cell(out["pt"], out["coord"], out["fcs"], out["normals"], dimmask, np.eye(3))
+        out.update({"Kinv": Kinv, "M": M, "A": A, "Pi": Pi, "P": P})
+    except Exception as e:  # the code under test raised on a valid simplex: reported by the oracle
+        out.update({"exc": f"{type(e).__name__}: {e}", "exc_type": type(e).__name__})
     _cache[k] = out
     return out
 
@@ -350,11 +355,15 @@ def grid_real(case):
         bcv[bf] = a @ sd.face_centers[:, bf] + b
         solver = cls("flow")
         data = pp.initialize_data({}, "flow", {"second_order_tensor": perm, "bc": bc, "bc_values": bcv})
-        solver.discretize(sd, data)
-        Asys, rhs = solver.assemble_matrix_rhs(sd, data)
+        try:
+            solver.discretize(sd, data)
+            Asys, rhs = solver.assemble_matrix_rhs(sd, data)
+        except Exception as e:  # the code under test raised on a valid grid: reported by the oracle
+            res[name] = {"exc": f"{type(e).__name__}: {e}", "exc_type": type(e).__name__}
+            continue
         try:
             sol = sps.linalg.spsolve(Asys.tocsc(), rhs)
-        except Exception as e:  # singular system
+        except Exception:  # singular system
             sol = np.full(rhs.size, np.nan)
         md = data[pp.DISCRETIZATION_MATRICES]["flow"]
         u = solver.extract_flux(sd, sol, data)
@@ -369,9 +378,14 @@ def impl_run(case):
     if case["kind"] == "local":
         r = local_real(case)
         d = case["d"]
+        if "exc" in r:
+            raise RuntimeError("static helper raised " + r["exc"])
         return {"inv": r["Kinv"].tolist(), "M": r["M"].tolist(), "A": r["A"].tolist(), "Pi": r["Pi"].tolist(),
                 "P": r["P"][:d, :].T.tolist(), "P_rest": float(np.abs(r["P"][d:, :]).max()) if d < 3 else 0.0}
     r = grid_real(case)
+    for name in ("rt0", "mvem"):
+        if "exc" in r[name]:
+            raise RuntimeError(f"{name} discretize/assemble raised " + r[name]["exc"])
     return {"rt0_mass": r["rt0"]["mass"].tolist(), "mvem_mass": r["mvem"]["mass"].tolist()}
 
 
@@ -396,17 +410,10 @@ def cell_topology(sd):
     return out
 
 
-def tangential_tensor(case, T):
-    K = [[F(v) for v in row] for row in case["K"]]
-    d = case["d"]
-    return [[sum(T[r][i] * K[r][q] * T[q][j] for r in range(3) for q in range(3)) for j in range(d)] for i in range(d)]
-
-
 def model_ops(case):
     d = case["d"]
     if case["kind"] == "local":
-        r = local_real(case)
-        x, V, cen, fc, n_out = local_geometry(case)
+        r = local_data(case)
         return [
             {"op": "inv", "d": d, "K": case["K"]},
             {"op": "rt0_mass", "d": d, "K": case["K"], "V": frac(r["V"]), "coord": case["coord"], "sign": fvec(case["sign"])},
@@ -415,18 +422,25 @@ def model_ops(case):
              "normals": [fvec(p) for p in r["normals"].T], "sign": fvec(case["sign"]), "diam": frac(r["diam"]), "weight": frac(r["weight"])},
         ]
     r = grid_real(case)
-    sd, loc, T, t = r["sd"], r["loc"], r["T"], r["t"]
-    Kt = fmat(tangential_tensor(case, T))
-    Tf = mat_f(T)  # 3 x d
-    tf = np.array([fl(v) for v in t])
+    sd = r["sd"]
+    import porepy as pp
+    # the frame in which discretize works (glue): mapped geometry and rotated tensor. The MVEM stabilisation weight
+    # uses the infinity norm of K^-1, which depends on the in-plane frame, so the model is fed the same frame.
+    c_centers, f_normals, f_centers, R, dimmask, node_coords = pp.map_geometry.map_grid(sd, 1e-5)
+    idx = np.where(dimmask)[0] if d < 3 else np.arange(3)
+    Rf = [[Fraction(float(v)) for v in row] for row in np.asarray(R)]
+    K = [[F(v) for v in row] for row in case["K"]]
+    Krot = [[sum(Rf[i][p] * K[p][q] * Rf[j][q] for p in range(3) for q in range(3)) for j in range(3)] for i in range(3)]
+    Kt = fmat([[Krot[i][j] for j in idx] for i in idx])
+    node_coords = node_coords[:d, :]
     diams = sd.cell_diameters()
     ops = []
     for c, (faces, signs, opp) in enumerate(cell_topology(sd)):
-        coord = [fvec(loc[nd]) for nd in opp]
+        coord = [fvec(node_coords[:, nd]) for nd in opp]
         ops.append({"op": "rt0_mass", "d": d, "K": Kt, "V": frac(sd.cell_volumes[c]), "coord": coord, "sign": fvec(signs)})
-        fc = [fvec(Tf.T @ (sd.face_centers[:, f] - tf)) for f in faces]
-        nrm = [fvec(Tf.T @ sd.face_normals[:, f]) for f in faces]
-        cc = fvec(Tf.T @ (sd.cell_centers[:, c] - tf))
+        fc = [fvec(f_centers[:d, f]) for f in faces]
+        nrm = [fvec(f_normals[:d, f]) for f in faces]
+        cc = fvec(c_centers[:d, c])
         ops.append({"op": "mvem_mass", "d": d, "m": d + 1, "K": Kt, "c": cc, "V": frac(sd.cell_volumes[c]), "fc": fc, "normals": nrm,
                     "sign": fvec(signs), "diam": frac(diams[c]), "weight": frac(float(np.power(diams[c], 2 - d)))})
     return ops
@@ -488,6 +502,8 @@ def _spd(M, what):
 def oracle_local(case):
     r = local_real(case)
     d = case["d"]
+    if "exc" in r:
+        return {"what": f"static helper raised {r['exc']} on simplex {case['coord']} K={case['K']} sign={case['sign']}", "key": f"local-raises-{r['exc_type']}-{d}d"}
     K, Kinv, s = r["K"], r["Kinv"], r["s"]
     if np.abs(Kinv @ K - np.eye(d)).max() > 1e-10:
         return {"what": f"_inv_matrix_{d}d(K) @ K != I for symmetric K = {K.tolist()}", "key": f"local-inv-{d}d"}
@@ -537,6 +553,9 @@ def oracle_grid(case):
             return {"what": f"grid geometry violates the divergence theorem on cell {c} (hypothesis of the theorems; see C19)", "key": f"grid-geometry-{tag}"}
     for name in ("rt0", "mvem"):
         g = r[name]
+        if "exc" in g:
+            return {"what": f"{name.upper()} discretize/assemble raised {g['exc']} on grid d={d} n={case['n']} embedded={bool(case['embed'])}",
+                    "key": f"grid-{name}-raises-{g['exc_type']}-{tag}"}
         bad = _spd(g["mass"], f"{name.upper()} global mass matrix")
         if bad:
             return {"what": bad[0] + f" on grid d={d} n={case['n']}", "key": f"grid-{name}-mass-{bad[1]}-{tag}"}
